@@ -207,9 +207,9 @@ func decidePositions(src string, tf parser.TemplateFile, recs []tgen.Record) err
 		}
 		ok := false
 		for _, e := range exprs {
-			// the parser may include the padding inside { } in the expression text
+			// the parser may include the padding inside { } and a trailing comma in the expression text
 			lead := len(e.Value) - len(strings.TrimLeft(e.Value, " \t\r\n"))
-			if int(e.R.From.Index)+lead == r.Start && strings.TrimSpace(e.Value) == strings.TrimSpace(r.Text) {
+			if int(e.R.From.Index)+lead == r.Start && strings.TrimRight(strings.TrimSpace(e.Value), ", \t\n") == strings.TrimSpace(r.Text) {
 				ok = true
 				break
 			}
@@ -297,6 +297,14 @@ func init() {
 }
 
 func fail(t ev.Failer, src string, err error) {
+	if strings.Contains(err.Error(), "did not finish within") {
+		// The parser is still spinning in its goroutine and would starve everything that follows
+		// (shrinking included): record the input as it is and end the process now.
+		recTotal.WriteViolation(Case{Input: ev.QStr(src)}, err.Error()+"\ninput:\n"+clip2(src))
+		ev.FlushAll()
+		fmt.Printf("c06.totality: %v\ninput:\n%s\n", err, clip2(src))
+		os.Exit(1)
+	}
 	if strings.HasPrefix(err.Error(), "positions:") {
 		recPos.Fail(t, Case{Input: ev.QStr(src)}, "%v\ninput:\n%s", err, clip2(src))
 	}
@@ -349,7 +357,38 @@ var genMutated = rapid.Custom(func(t *rapid.T) string {
 	}
 	for i, n := 0, rapid.IntRange(1, 4).Draw(t, "nmut"); i < n; i++ {
 		pos := rapid.IntRange(0, len(s)).Draw(t, "pos")
-		switch rapid.IntRange(0, 5).Draw(t, "mut") {
+		switch rapid.IntRange(0, 7).Draw(t, "mut") {
+		case 6, 7:
+			// declaration-header mutation: change the keyword of a top-level declaration line, or put
+			// something unexpected between the keyword and the name
+			lines := strings.Split(s, "\n")
+			var decls []int
+			for li, l := range lines {
+				for _, kw := range []string{"templ ", "css ", "script ", "func ", "type ", "var ", "import ", "package "} {
+					if strings.HasPrefix(l, kw) {
+						decls = append(decls, li)
+					}
+				}
+			}
+			if len(decls) == 0 {
+				continue
+			}
+			li := decls[rapid.IntRange(0, len(decls)-1).Draw(t, "decl")]
+			l := lines[li]
+			sp := strings.Index(l, " ")
+			switch rapid.IntRange(0, 2).Draw(t, "hdr") {
+			case 0: // another keyword
+				l = rapid.SampledFrom([]string{"templ", "css", "script", "func", "if", "for", "switch", "package"}).Draw(t, "kw") + l[sp:]
+			case 1: // something between keyword and name
+				l = l[:sp+1] + rapid.SampledFrom([]string{" ", "_", "1", "(", "(r R) ", "é", "*", "[", "{", ".", "\t"}).Draw(t, "ins") + l[sp+1:]
+			default: // drop the name's first character
+				if sp+2 < len(l) {
+					l = l[:sp+1] + l[sp+2:]
+				}
+			}
+			lines[li] = l
+			s = strings.Join(lines, "\n")
+			continue
 		case 0, 1:
 			s = s[:pos] + rapid.SampledFrom(tokens).Draw(t, "tok") + s[pos:]
 		case 2:
